@@ -18,7 +18,7 @@
    then dispose() has not returned yet (C33_ex_stop_with_cancel_queued).
    Assumption of the property, built into the system: the loop does not start (again) while a dispose()
    that found it not running is in progress. *)
-From RxVerif Require Import Base.Prelude Core.AsyncIO Core.AsyncIOFacts.
+From RxVerif Require Import Base.Prelude Core.AsyncIO Core.AsyncIOFacts Core.AsyncIOTime.
 Local Open Scope Z_scope.
 
 (* once dispose() on the returned disposable has returned, the action does not start -- for every
@@ -55,6 +55,45 @@ Theorem C33_on_loop_thread : forall ts fixed abody t0 pre segs progs sched tid t
   In (tid, t, AStart u) (a_log (arun ts fixed abody (ainit t0 pre segs progs) sched)) -> tid = 0%nat.
 Proof. exact aio_on_loop_thread. Qed.
 Print Assumptions C33_on_loop_thread.
+
+(* ---- "no earlier than their due time" ------------------------------------------------------------- *)
+(* Every schedule call records the due time of the new call (uid = number of calls made before) in the ghost
+   list [adue]: the clock at the call + the positive part of the delay; schedule_absolute(t) is
+   schedule_relative(t - now) (both classes), a negative or zero delay is schedule().  Holds for either
+   scheduler, repaired or not, with any foreign threads: no side condition. *)
+Theorem C33_due_recorded : forall ts fixed ol s o r s' cur' todo' out,
+  length (adue s) = length (ahl s) ->
+  call_step ts fixed ol s None (o :: r) = Some (s', cur', todo', out) ->
+  forall d, (o = ANow /\ d = 0) \/ o = ARel d \/ (exists t, o = AAbs t /\ d = t - aclock s) ->
+  out = [ARet (length (ahl s))] /\ nth_error (adue s') (length (ahl s)) = Some (aclock s + Z.max 0 d).
+Proof. exact aio_due_recorded. Qed.
+Print Assumptions C33_due_recorded.
+
+(* ... its hypothesis holds in every reachable state, and a recorded due time is never changed afterwards *)
+Theorem C33_due_len : forall ts fixed abody t0 pre segs progs sched,
+  let c := arun ts fixed abody (ainit t0 pre segs progs) sched in length (adue (a_sh c)) = length (ahl (a_sh c)).
+Proof. exact aio_due_len. Qed.
+Print Assumptions C33_due_len.
+
+Theorem C33_due_stable : forall ts fixed abody t0 pre segs progs sched1 sched2 u due,
+  let c1 := arun ts fixed abody (ainit t0 pre segs progs) sched1 in
+  nth_error (adue (a_sh c1)) u = Some due -> nth_error (adue (a_sh (arun ts fixed abody c1 sched2))) u = Some due.
+Proof. exact aio_due_stable. Qed.
+Print Assumptions C33_due_stable.
+
+(* an action starts no earlier than the due time of its call -- for every schedule of thread steps and clock
+   advances, across loop.stop() / run again *)
+Theorem C33_not_early : forall ts fixed abody t0 pre segs progs sched tid t u,
+  let c := arun ts fixed abody (ainit t0 pre segs progs) sched in
+  In (tid, t, AStart u) (a_log c) -> exists due, nth_error (adue (a_sh c)) u = Some due /\ due <= t.
+Proof. exact aio_not_early. Qed.
+Print Assumptions C33_not_early.
+
+(* the timer-heap step of _run_once on its own: a timer is moved to _ready only when now >= when *)
+Theorem C33_timer_popped_when_due : forall now tm dl rest h, split_due now tm = (dl, rest) -> In h dl ->
+  exists w, In (w, h) tm /\ w <= now.
+Proof. exact aio_timer_popped_when_due. Qed.
+Print Assumptions C33_timer_popped_when_due.
 
 (* the code BEFORE the repair is refuted: a foreign dispose() while the loop is between call_later
    returning and handle.append cancels stage 1 only; the timer fires after dispose() returned *)
@@ -97,6 +136,24 @@ Example C33_ex_dispose_before_loop_runs :
   let c := arun false true noaction (ainit 0 [ANow; ARel 500; ADispose 0%nat] [] []) (repeat (AMStep 0%nat) 8 ++ [AMTick 500] ++ repeat (AMStep 0%nat) 6) in
   map snd (a_log c) = [ARet 0; ARet 1; ADispRet 0; AStart 1; AEnd 1]%nat.
 Proof. vm_compute. reflexivity. Qed.
+
+(* schedule_absolute: due 1500 scheduled at 200 (thread-safe: stage2 at 300, timer key 300 + 1300 = 1600 -- later than
+   due, never earlier); an absolute time in the past and a negative relative delay run at once *)
+Example C33_ex_absolute_and_negative :
+  let c := arun true true noaction (ainit 200 [AAbs 1500; AAbs 100; ARel (-700)] [] [])
+                ([AMStep 0; AMStep 0; AMStep 0; AMTick 100] ++ repeat (AMStep 0%nat) 14 ++ [AMTick 1299] ++
+                 repeat (AMStep 0%nat) 3 ++ [AMTick 1] ++ repeat (AMStep 0%nat) 4) in
+  map (fun x => (snd (fst x), snd x)) (filter (fun x => match snd x with AStart _ => true | _ => false end) (a_log c)) =
+    [(300, AStart 1%nat); (300, AStart 2%nat); (1600, AStart 0%nat)] /\
+  adue (a_sh c) = [1500; 200; 200].
+Proof. vm_compute. split; reflexivity. Qed.
+
+Example C33_ex_absolute_plain :
+  let c := arun false true noaction (ainit 200 [AAbs 1500] [] [])
+                ([AMStep 0; AMStep 0; AMTick 1299; AMStep 0; AMTick 1] ++ repeat (AMStep 0%nat) 4) in
+  map (fun x => (snd (fst x), snd x)) (filter (fun x => match snd x with AStart _ => true | _ => false end) (a_log c)) =
+    [(1500, AStart 0%nat)] /\ adue (a_sh c) = [1500].
+Proof. vm_compute. split; reflexivity. Qed.
 
 (* ---- the loop is stopped while callbacks are queued, and run again -------------------------------- *)
 (* action 0 stops the loop; while it runs a foreign thread schedules action 1 and disposes it (marshalled:
